@@ -85,7 +85,8 @@ Absent == [present |-> FALSE, cv |-> U, args |-> "L", np |-> U]
 
 VARIABLES D,       \* [gv : [Plats -> ValsU], sv : [Plats -> [Stages -> ValsU]], comp : [Comps -> component record]]
           cache,   \* partial function <<component, platform>> -> result record (FlowIRConcrete._cache)
-          handed,  \* "fresh": the caller still holds the dictionary returned by the last successful query; "none"
+          handed,  \* which dictionary the caller still holds from the last successful query: "hit" (answered from the
+                   \* cache), "miss" (resolved and stored), "other" (resolved, not stored), or "none"
           last     \* the last call and what it returned (history variable, hidden by the VIEW)
 vars == <<D, cache, handed, last>>
 View == <<D, cache, handed>>
@@ -155,7 +156,7 @@ Query(c, p, f) ==
       fill == /\ UsesCache(f) /\ ~hit /\ ret.kind = "ok"
               /\ (Lenient(f) /\ ~LenientPoisons) => ~LenientDiffers(D, c, p)
   IN /\ cache' = IF fill THEN Store(k, ret) ELSE cache
-     /\ handed' = IF ret.kind = "ok" THEN "fresh" ELSE handed
+     /\ handed' = IF ret.kind # "ok" THEN handed ELSE IF hit THEN "hit" ELSE IF fill THEN "miss" ELSE "other"
      /\ last' = Call("Query", c, p, -1, f, U, hit, ret)
      /\ UNCHANGED D
 
@@ -225,7 +226,7 @@ InPlaceStage(p, s, x)  == SetStageVarOf(p, s, x, "ref", "InPlaceStage")
 
 (* the caller scribbles over the dictionary it received from the last successful query *)
 MutateReturned ==
-  /\ handed = "fresh"
+  /\ handed # "none"
   /\ handed' = "none"
   /\ last' = Call("MutateReturned", U, U, -1, U, U, FALSE, Done)
   /\ UNCHANGED <<D, cache>>
@@ -263,7 +264,7 @@ TypeOK == /\ D.gv \in [Plats -> AllValsU]
                               /\ D.comp[c].np \in AllValsU \cup {"R", "X"}
                               /\ (~D.comp[c].present => D.comp[c] = Absent)
           /\ DOMAIN cache \subseteq Keys
-          /\ handed \in {"none", "fresh"}
+          /\ handed \in {"none", "hit", "miss", "other"}
 
 (* every cache entry is what a from-scratch resolution of the current description gives *)
 Coherent == \A k \in DOMAIN cache : cache[k] = Resolve(D, k[1], k[2], "full")
@@ -300,7 +301,7 @@ CodeOf(DD, ca, ha) ==
   Cat([i \in 1..Len(CompSeq) |-> LET cc == DD.comp[CompSeq[i]] IN (IF cc.present THEN "P" ELSE "A") \o cc.cv \o cc.args \o cc.np])
   \o "|" \o
   Cat([i \in 1..Len(CompSeq) |-> Cat([j \in 1..Len(PlatSeq) |-> IF <<CompSeq[i], PlatSeq[j]>> \in DOMAIN ca THEN "1" ELSE "0"])])
-  \o "|" \o (IF ha = "fresh" THEN "F" ELSE "N")
+  \o "|" \o (CASE ha = "none" -> "N" [] ha = "hit" -> "H" [] ha = "miss" -> "M" [] ha = "other" -> "O")
 
 (* exhaustive mode: one line per transition *)
 EmitEdge == Emit => PrintT(ToJson([f |-> CodeOf(D, cache, handed), a |-> last', t |-> CodeOf(D', cache', handed')]))
